@@ -83,6 +83,7 @@ type Builder struct {
 	OpenNestedStale   bool
 	OpenPtrSrcWhole   bool // F-UPDATE-PTRSRC-WHOLE
 	noDot             bool
+	genericDeclared   bool
 	ptrBoost          bool // favour pointer shapes (default methods: nested pointer builds)
 	OpenNilPtrSub     bool // F-UPDATE-NILLABLE-CALL
 	noPtrToNamed      bool
@@ -292,7 +293,7 @@ func (b *Builder) Pair(depth int) (*spec.T, *spec.T) {
 		choices[0].w = 14
 		choices = append(choices,
 			choice{"ptr", 12}, choice{"tptr", 8}, choice{"slice", 12}, choice{"map", 8},
-			choice{"struct", 22}, choice{"ustruct", 6}, choice{"nmap", 4}, choice{"nslice", 4})
+			choice{"struct", 22}, choice{"ustruct", 6}, choice{"nmap", 4}, choice{"nslice", 4}, choice{"generic", 4})
 		if b.O.Flags {
 			choices = append(choices, choice{"sptr", 6})
 		}
@@ -427,6 +428,17 @@ func (b *Builder) Pair(depth int) (*spec.T, *spec.T) {
 		b.topLevel = true // map values are built into a temporary first
 		vs, vt := b.pairAssign(depth - 1)
 		return spec.Map(ks, vs), spec.Map(kt, vt)
+	case "generic":
+		// instantiations of a generic struct declared once per side
+		if !b.genericDeclared {
+			b.genericDeclared = true
+			tp := &spec.T{K: spec.KParam, Name: "T"}
+			u := spec.Struct(spec.F("V", tp), spec.F("L", spec.Slice(tp)), spec.F("P", spec.Ptr(tp)))
+			b.A.Types = append(b.A.Types, &spec.TypeDecl{Name: "GBoxS", Params: []string{"T"}, U: u})
+			b.B.Types = append(b.B.Types, &spec.TypeDecl{Name: "GBoxT", Params: []string{"T"}, U: u})
+		}
+		es, et := b.pairAssign(depth - 1)
+		return spec.Generic(b.A.Key, "GBoxS", es), spec.Generic(b.B.Key, "GBoxT", et)
 	case "nmap", "nslice":
 		// named container types: converted by generated methods of their own
 		var su, tu *spec.T
